@@ -12,7 +12,7 @@
    parameters, IPSECKEY gateway, OPT options) are not in the table: they are
    covered by the implementation-side oracle only (see tools/meta/C05.json). *)
 From Coq Require Import Arith NArith List Bool.
-From DV Require Import Base.Outcome Base.Bytes Base.Names Base.PName C05.Schema.
+From DV Require Import Base.Outcome Base.Bytes Base.Names Base.PName C05.Schema C05.Gen.
 Import ListNotations.
 Local Open Scope N_scope.
 
@@ -97,6 +97,24 @@ Definition row_follows_rfc (r : N * schema) : bool :=
   then negb (existsb is_name_not_lower (s_fields s))     (* every name lower-cased *)
   else negb (existsb is_lower (s_fields s)).             (* no name lower-cased *)
 
+(* ---- `==` of the record data enums on opaque data.
+   The PartialEq impls generated by rdata_types! match (variant, variant) pairs
+   arm by arm and end in `_ => false`; UnknownRecordData::eq compares the
+   type and the octets.  Whether the Unknown / Opt arms exist is read from the
+   macro (T1). *)
+Fixpoint bytes_eqb (a b : bytes) : bool :=
+  match a, b with
+  | [], [] => true
+  | x :: a', y :: b' => (x =? y) && bytes_eqb a' b'
+  | _, _ => false
+  end.
+Definition unknown_eq (t1 : N) (b1 : bytes) (t2 : N) (b2 : bytes) : bool :=
+  (t1 =? t2) && bytes_eqb b1 b2.
+Definition all_eq_unknown (t1 : N) (b1 : bytes) (t2 : N) (b2 : bytes) : bool :=
+  if Gen.all_eq_has_unknown_arm then unknown_eq t1 b1 t2 b2 else false.
+Definition zone_eq_unknown (t1 : N) (b1 : bytes) (t2 : N) (b2 : bytes) : bool :=
+  if Gen.zone_eq_has_unknown_arm then unknown_eq t1 b1 t2 b2 else false.
+
 (* ---- entry points for the correspondence driver *)
 Definition c05_fields (t : N) : option (list field) :=
   match schema_of t with Some s => Some (s_fields s) | None => None end.
@@ -123,3 +141,6 @@ Definition c05_parse (t : N) (m : bytes) (pos lim : N) : option (outcome value) 
   | None => None
   | Some s => Some (parse_rdata pname_dec s m pos lim)
   end.
+
+Definition c05_eq_unknown (t1 : N) (b1 : bytes) (t2 : N) (b2 : bytes) : bool * bool :=
+  (all_eq_unknown t1 b1 t2 b2, zone_eq_unknown t1 b1 t2 b2).
